@@ -593,9 +593,13 @@ def valid_content(ctx, prog):
             if a is None:
                 continue
             t2 = re.sub(r"::<[^()]*>\(", "(", canon(("bin", a[0], a[1], a[2]))) if a[0] != "truth" else None
-            if t2 in ("Le(internals::compare::position_array::BlockHashPositionArrayData::len(param:self),64)",
-                      "Ge(64,internals::compare::position_array::BlockHashPositionArrayData::len(param:self))"):
-                guard = True
+            if t2 is not None:
+                # `len <= 64`, with the bound spelled as the literal or as the constant FULL_SIZE, on u8 or after `as usize`
+                t3 = re.sub(r"[\w:]*FULL_SIZE=64", "64", t2).replace(" as usize)", ")")
+                t3 = re.sub(r"\((internals::compare::position_array::BlockHashPositionArrayData::len\(param:self\))\)", r"\1", t3)
+                if t3 in ("Le(internals::compare::position_array::BlockHashPositionArrayData::len(param:self),64)",
+                          "Ge(64,internals::compare::position_array::BlockHashPositionArrayData::len(param:self))"):
+                    guard = True
             if a[0] == "truth" and a[2] is True and strip(a[1])[0] == "call" and strip(a[1])[1].endswith("::all"):
                 scan = True
         if len(alls) != 1:
